@@ -14,9 +14,14 @@ verus! {
 #[verifier::external_body]
 pub struct ArtifactPathAndContent { p: core::marker::PhantomData<u8> }
 #[verifier::external_body]
-pub struct FileSystemOperation { p: core::marker::PhantomData<u8> }
-#[verifier::external_body]
 pub struct Path { p: core::marker::PhantomData<u8> }
+impl Clone for Path { #[verifier::external_body] fn clone(&self) -> (r: Self) ensures r == *self { unimplemented!() } }
+pub type PathBuf = Path;
+pub struct FileContent { p: core::marker::PhantomData<u8> }
+#[verifier::reject_recursive_types(T)]
+pub struct Index<T> { pub idx: usize, pub phantom: core::marker::PhantomData<T> }
+// the real enum (common_lang_types), so that code under contract may construct operations
+//@item rel=crates/common_lang_types/src/file_system_operation.rs kind=enum name=FileSystemOperation prefix="pub"
 #[verifier::external_body]
 pub struct Diagnostic { p: core::marker::PhantomData<u8> }
 #[verifier::external_body]
